@@ -4159,6 +4159,7 @@ impl BytecodeVM {
                 dst,
                 constructor,
                 super_class,
+                has_heritage,
             } => {
                 // Get constructor function - it should be a function object
                 let ctor_val = self.get_reg(constructor);
@@ -4172,12 +4173,23 @@ impl BytecodeVM {
 
                 // Handle superclass if provided
                 let super_val = self.get_reg(super_class);
-                if !matches!(super_val, JsValue::Undefined) {
+                if has_heritage && matches!(super_val, JsValue::Null) {
+                    // `extends null`: instances do not inherit from Object.prototype
+                    prototype.borrow_mut().prototype = None;
+                } else if has_heritage {
                     let JsValue::Object(super_ctor) = &super_val else {
                         return Err(JsError::type_error(
-                            "Class extends value is not a constructor",
+                            "Class extends value is not a constructor or null",
                         ));
                     };
+                    if !super_ctor.borrow().is_callable() {
+                        return Err(JsError::type_error(
+                            "Class extends value is not a constructor or null",
+                        ));
+                    }
+
+                    // The class itself inherits from its parent (static members)
+                    ctor_obj.borrow_mut().prototype = Some(super_ctor.cheap_clone());
 
                     // Set prototype chain: prototype.__proto__ = superClass.prototype
                     let proto_key = PropertyKey::String(interp.intern("prototype"));
@@ -4187,10 +4199,15 @@ impl BytecodeVM {
                         prototype.borrow_mut().prototype = Some(super_proto.cheap_clone());
                     }
 
-                    // Store __super__ on constructor for super() calls
-                    ctor_obj.borrow_mut().set_property(
+                    // Store __super__ on constructor for super() calls (internal: not enumerable)
+                    ctor_obj.borrow_mut().define_property(
                         PropertyKey::String(interp.intern("__super__")),
-                        JsValue::Object(super_ctor.cheap_clone()),
+                        Property::with_attributes(
+                            JsValue::Object(super_ctor.cheap_clone()),
+                            true,
+                            false,
+                            true,
+                        ),
                     );
 
                     // Store __super_target__ for super.x property access
@@ -4198,9 +4215,9 @@ impl BytecodeVM {
                         .borrow()
                         .get_property(&PropertyKey::String(interp.intern("prototype")))
                     {
-                        ctor_obj.borrow_mut().set_property(
+                        ctor_obj.borrow_mut().define_property(
                             PropertyKey::String(interp.intern("__super_target__")),
-                            sp,
+                            Property::with_attributes(sp, true, false, true),
                         );
                     }
                 }
